@@ -30,7 +30,10 @@ def aged_connections(c, prop="C15"):
                          {"op": "mark", "tag": "done:" + conn}, {"op": "close", "conn": conn}])
         meta[rid] = {"name": nm, "len": n, "framing": framing, "seed": 500 + i, "host": {("168.63.129.16", 80): "ws", ("169.254.169.254", 80): "imds",
                      ("168.63.129.16", 32526): "ga"}.get((dip, dport), "other"), "conn": conn}
-    ev, d, _ = rig.run_rig({"steps": [{"op": "parallel", "branches": branches}], "drain_ms": 400}, "aged_%s" % prop.lower(), timeout=180)
+    # (the mock hosts keep idle upstream connections for 5 minutes here: an upstream connection the HOST closes after 30 idle
+    #  seconds is answered 502 by the proxy, which is another scenario and not what is judged)
+    ev, d, _ = rig.run_rig({"steps": [{"op": "parallel", "branches": branches}], "drain_ms": 400}, "aged_%s" % prop.lower(), timeout=600,
+                           env_extra={"VERIF_HOST_IDLE_S": "300"})
     resp = {e["id"]: e for e in ev if e["e"] == "Response"}
     rerr = {e["id"]: e for e in ev if e["e"] == "ResponseError"}
     recv = {e["id"]: e for e in ev if e["e"] == "HostRecv" and e.get("id")}
